@@ -276,8 +276,11 @@ parseinit(struct scope *s, struct type *t)
 				return p.init;
 			if (tok.kind == TCOMMA) {
 				next();
-				if (tok.kind != TRBRACE)
+				if (tok.kind != TRBRACE) {
+					if (p.sub == p.cur)
+						error(&tok.loc, "too many initializers for type");
 					break;
+				}
 			} else if (tok.kind != TRBRACE) {
 				error(&tok.loc, "expected ',' or '}' after initializer");
 			}
